@@ -8,7 +8,7 @@ sides read the struct tags alike).
 
   * `base_agree`    one occurrence of a scalar or embedded-message value (embedded: MERGE into the current value, by the
                     induction hypothesis on the reference's fuel)
-  * `field_agree`   … behind an optional pointer (`*T`: allocate a zero value if nil, else decode into the pointee)
+  * `field_agree`   … behind an optional pointer (`*T`: allocate a zero value if nil, else decodeU into the pointee)
   * `slice_agree`   … as one more element of a repeated field
   * `loop_agree`    the loop: whenever the reference parser accepts `b` and the reference decoder maps the records to
                     `vs'`, the Go loop works through `b` and arrives at LITERALLY the same field values `vs'`
@@ -39,7 +39,7 @@ theorem rec_seg (cfs : CFields) (fl : Flags) (ptag p : Bytes) (tag : Nat) (w : W
     (c : Codec) (vs : Vals) (v' : Val) (data : Bytes) (ht : VTok ptag tag) (hp : Pay w p) (h8 : tag % 8 = wireNum w)
     (hlk : lookupField cfs (tag / 8) = some (i, emb, zz, c))
     (hw : wireNum w = c.wire.num) (hemb : emb = true → c.wire = .varlen) (hd : DataFor emb p data)
-    (hdec : ∃ f, decode f c data (Vals.get vs i) { fl with zigzag := fl.zigzag || zz } = .ok (v', data.length)) :
+    (hdec : ∃ f, decodeU f c data (Vals.get vs i) { fl with zigzag := fl.zigzag || zz } = .ok (v', data.length)) :
     Seg cfs fl (ptag ++ p) vs (Vals.set vs i v') := by
   have hnum := tag_num tag ht.lt
   have hty := tag_type tag ht.lt
@@ -63,7 +63,7 @@ theorem base_agree (F : Nat) (ih : ∀ F', F' < F → LoopOK F') (tb : Ty) (o : 
     (ho : optOK tb o = true) (hfl : fl.zigzag = o.zigzag) (hp : Pay w p)
     (h : decodeOne F tb o w cur = some v) :
     wireNum w = (codecFor tb o).wire.num ∧ (isStructTy tb = true → (codecFor tb o).wire = .varlen) ∧
-      ∃ data, DataFor (isStructTy tb) p data ∧ ∃ f, decode f (codecFor tb o) data cur fl = .ok (v, data.length) := by
+      ∃ data, DataFor (isStructTy tb) p data ∧ ∃ f, decodeU f (codecFor tb o) data cur fl = .ok (v, data.length) := by
   by_cases hs : isStructTy tb = true
   · cases tb <;> simp only [isStructTy] at hs <;> try (exact absurd hs (by decide))
     rename_i fs'
@@ -114,9 +114,9 @@ def ptrTgt (c' : Codec) (cur : Val) : Val :=
   | _ => zeroOfCodec c'
 
 theorem decode_ptr (f : Nat) (c' : Codec) (b : Bytes) (cur : Val) (fl : Flags) :
-    decode (f + 1) (.ptr c') b cur fl
-      = (decode f c' b (ptrTgt c' cur) fl).bind fun (x : Val × Nat) => .ok (.ptr x.1, x.2) := by
-  simp only [decode, ptrTgt]
+    decodeU (f + 1) (.ptr c') b cur fl
+      = (decodeU f c' b (ptrTgt c' cur) fl).bind fun (x : Val × Nat) => .ok (.ptr x.1, x.2) := by
+  simp only [decodeU, ptrTgt]
   cases cur <;> rfl
 
 /-- a non-repeated field: the value itself or an optional pointer to it -/
@@ -126,7 +126,7 @@ theorem field_agree (F : Nat) (ih : ∀ F', F' < F → LoopOK F') (t : Ty) (o : 
     (h : decodeOne F (deref t) o w (unwrapPtr t cur) = some v) :
     wireNum w = (codecFor t o).wire.num ∧ (isEmb t = true → (codecFor t o).wire = .varlen) ∧
       ∃ data, DataFor (isEmb t) p data ∧
-        ∃ f, decode f (codecFor t o) data cur fl = .ok (wrapPtr t v, data.length) := by
+        ∃ f, decodeU f (codecFor t o) data cur fl = .ok (wrapPtr t v, data.length) := by
   by_cases hptr : isPtr t = true
   · cases t <;> simp only [isPtr] at hptr <;> try (exact absurd hptr (by decide))
     rename_i t'
@@ -159,7 +159,7 @@ theorem slice_agree (F : Nat) (ih : ∀ F', F' < F → LoopOK F') (e : Ty) (o : 
     (hp : Pay w p) (h : decodeOne F e o w (Spec.Protobuf.zeroOf e) = some x) :
     wireNum w = (codecOf e).wire.num ∧ (isStructTy e = true → (codecOf e).wire = .varlen) ∧
       ∃ data, DataFor (isStructTy e) p data ∧
-        ∃ f, decode f (.slice (codecOf e) num (codecOf e).wire (isStructTy e)) data cur fl
+        ∃ f, decodeU f (.slice (codecOf e) num (codecOf e).wire (isStructTy e)) data cur fl
           = .ok (.list (Vals.ofList ((match cur with | .list l => l.toList | _ => []) ++ [x])), data.length) := by
   simp only [tyOK, elemTy, Bool.and_eq_true, Bool.not_eq_true'] at ht
   simp only [optOK, Bool.and_eq_true, Bool.not_eq_true'] at ho
@@ -172,7 +172,7 @@ theorem slice_agree (F : Nat) (ih : ∀ F', F' < F → LoopOK F') (e : Ty) (o : 
     hp h
   rw [hc] at hw hv hf
   refine ⟨hw, hv, data, hdat, f + 1, ?_⟩
-  simp only [decode, hf]
+  simp only [decodeU, hf]
   cases cur <;> simp only [Vals.toList, List.nil_append]
 
 /-! ## the loop -/
